@@ -700,6 +700,19 @@ func genC04(g *G, sc *Scenario, tier string) {
 		at := g.Intn(len(sc.Ops) + 1)
 		sc.Ops = append(sc.Ops[:at:at], append([]Op{op}, sc.Ops[at:]...)...)
 	}
+	if len(c.Datasets) > 1 && g.P(0.04) {
+		// a transaction that is refused because of its last dataset's share, after an entity with a reference to more
+		// than a thousand others has been stored for an earlier dataset (either dataset may come first): nothing stays
+		var targets []any
+		for k := 0; k < 1200; k++ {
+			targets = append(targets, fmt.Sprintf("%swt%04d", MkE, k))
+		}
+		for _, order := range [][2]string{{c.Datasets[0], c.Datasets[1]}, {c.Datasets[1], c.Datasets[0]}} {
+			hub := Ent{"id": MkE + "wide", "props": map[string]any{}, "refs": map[string]any{c.Preds[0]: targets}}
+			bad := Ent{"id": MkE + "bad", "props": map[string]any{}, "refs": map[string]any{c.Preds[0]: nil}}
+			sc.Ops = append(sc.Ops, Op{K: "txn", M: map[string]any{"mayReject": true, "wide": true}, Parts: []Part{{DS: order[0], Ents: []Ent{hub}}, {DS: order[1], Ents: []Ent{bad}}}})
+		}
+	}
 	// named crash points
 	if g.P(0.15) {
 		sc.Knobs["allPoints"] = 1
